@@ -13,6 +13,14 @@ CHECKS = {
    technique="runtime monitoring: output read back by an independent RTF reader and compared with the input frame; conservation hook on the three paginate() methods",
    text="For every generated table (all strategies, nrow 1..50, wrapped rows, header/footnote/source variants, single and multi-section) the parsed data rows of all pages, concatenated, must equal the DataFrame's display texts in order; every table row must be classifiable by sentinel; a hook on DefaultPaginationStrategy/PageByStrategy/SublineStrategy.paginate asserts that the page slices partition the frame. Includes a completely enumerated rows x nrow x strategy x header grid.",
    note="trusted: reader; sentinel tagging of one key column per table; group_by absent (C13)"),
+ "C03": dict(cat="exploration", ref="5/C03",
+   technique="runtime monitoring: per-page row weights of the parsed output (independent Pillow lower bound on wrapped lines) vs nrow; invariant hook on PageBreakCalculator._assign_pages",
+   text="Single-section tables whose cells need 1..6 lines at their own font and size, with every header mode, footnote/source form and placement and all three strategies, are rendered by the real library; on every parsed page header rows + heading rows + subline heading + data rows (weighted by ceil(Pillow text width / column width) at the cell's own font/size - a lower bound, so the oracle never over-counts) + table footnote/source rows must not exceed nrow unless the page holds one data row. A hook asserts that _assign_pages never fills a page beyond its own available_rows. One open known finding (auto-named header row not reserved; pinned by an existing test) is matched by mechanism.",
+   note="trusted: reader; Pillow metrics of the bundled fonts (independent of strwidth.py); pages with one data row exempt"),
+ "C04": dict(cat="exploration", ref="5/C04",
+   technique="runtime monitoring: page membership of tagged rows and rows rendered per page vs forced-break / necessity / prefix-stability rules; _assign_pages output replayed against a reference greedy; exhaustive small height vectors and group patterns",
+   text="Tables with unambiguous row heights are rendered by the real library: every height vector in {1,2,3}^n (n<=5 quick, <=7 thorough) x nrow 2..12 x 4 reservation sets, every group-change pattern up to length 6/7 under page_by (new_page off/on) and subline_by, and random larger cases. Pages must be non-empty contiguous runs; subline_by changes and page_by changes with new_page must start a page; every other break must be necessary under the most generous reading of the reservation rule; encoding a prefix of the data must paginate it identically. A hook replays every _assign_pages call against a reference greedy.",
+   note="trusted: reader; heights made unambiguous by construction (20% margins around line multiples); generous reserve = configured repeating components not yet rendered on the page"),
  "C05": dict(cat="exploration", ref="5/C05",
    technique="runtime monitoring: per-page sequence of heading rows, heading paragraphs and tagged data rows of the parsed output vs an independent walker over the input keys",
    text="Sorted group-key sequences (1-3 page_by levels, inner labels restarting under every parent, subline_by, one divider group) are rendered by the real library at page sizes that make groups start, end and continue at every in-page offset; the exhaustive part enumerates every composition of n rows into runs. On each parsed page the sequence of full-width heading rows and tagged data rows must equal the sequence a walker regenerates from the keys and the observed page membership (continuation heading at the page top, outer before inner, inner re-rendered when the outer changes, no heading for dividers, none stranded); with subline_by every page must carry the paragraph naming its single group before the first table row.",
